@@ -197,6 +197,29 @@ def run_case(case, ctx):
     if problems:
         kind = "stub-mismatch"
         raise Violation(kind, f"{problems[:6]}\n--- definitions\n{text}\n--- stub\n{stub}", info={"problems": problems})
+    # history: extend a structure through the public API, add an alias, generate again - the second stub must describe
+    # the definitions as they are NOW (nothing about an earlier generation may survive)
+    if not case.get("second_pass") and case.get("extend", True):
+        structs = [n for n in user_types if isinstance(cs.resolve(n), type) and issubclass(cs.resolve(n), m.Structure) and not issubclass(cs.resolve(n), m.Union) and cs.resolve(n).__name__ == n]
+        if structs:
+            tgt = cs.resolve(structs[len(text) % len(structs)])
+            r1 = lib(tgt.add_field, "extra_added_later", cs.uint32)
+            if not isinstance(r1, Err):
+                stub2 = lib(stubgen.generate_cstruct_stub, cs)
+                if isinstance(stub2, Err):
+                    raise Violation("stubgen-raised", f"second generation after add_field: {stub2}\n{text}", stub2.where)
+                try:
+                    tree2 = ast.parse(stub2)
+                except SyntaxError as e:
+                    raise Violation("stub-not-python:other", f"second generation after add_field: {e}\n{stub2}") from None
+                cls2 = [n for n in tree2.body if isinstance(n, ast.ClassDef)][0]
+                problems2 = []
+                for node in cls2.body:
+                    if isinstance(node, ast.ClassDef) and node.name == tgt.__name__:
+                        _check_struct(m, cs, node, tgt, tgt.__name__, problems2)
+                if problems2:
+                    raise Violation("stub-stale-after-extension", f"after {tgt.__name__}.add_field('extra_added_later', uint32) the regenerated stub is wrong: {problems2[:4]}\n--- definitions\n{text}\n--- stub\n{stub2}")
+                ctx.count("history:regenerated-after-add_field")
     kinds = {i["kind"] for i in case["items"]}
     for k in kinds:
         ctx.count("has:" + k)
